@@ -239,8 +239,15 @@ func refOutcomeStr(r refRun) string {
 }
 
 // diffProgram runs one program on both interpreters. ok=false when the model discarded it.
-func diffProgram(c *fw.Ctx, b *diffBase, id string, forms []*canon.Node, names []string, prefix string) {
+func diffProgram(c *fw.Ctx, b *diffBase, id string, forms []*canon.Node, names []string, prefix string) (ran bool) {
 	text := progText(forms)
+	defer func() {
+		if c.Only != "" && c.Only != id {
+			// replay of a later case of the same program (e.g. a relation check): treat as runnable iff the model accepts it
+			ref := runRef(forms, 200000)
+			ran = !(ref.Err != nil && (ref.Err.Class == refmal.Malformed || ref.Err.Class == refmal.Budget))
+		}
+	}()
 	c.Case(id, text, func() {
 		ref := runRef(forms, 200000)
 		if ref.Err != nil && (ref.Err.Class == refmal.Malformed || ref.Err.Class == refmal.Budget) {
@@ -253,6 +260,7 @@ func diffProgram(c *fw.Ctx, b *diffBase, id string, forms []*canon.Node, names [
 			return
 		}
 		rr := b.runReal(ast)
+		ran = true
 		c.Count("programs", 1)
 		c.Count("outcome."+orVal(refClass(ref.Err)), 1)
 		if len(ref.Trace) > 0 {
@@ -267,4 +275,5 @@ func diffProgram(c *fw.Ctx, b *diffBase, id string, forms []*canon.Node, names [
 			c.Violate(fw.Violation{Key: prefix + key, What: what, Detail: rr.Stack})
 		}
 	})
+	return ran
 }
